@@ -113,6 +113,11 @@ Theorem C20_tuple_cat : forall (A : Type) (d : A) (ts : list (list A)), tuple_ca
 Proof. exact (@tuple_cat_is_concat). Qed.
 Print Assumptions C20_tuple_cat.
 
+(* tuple / pair elements are direct-non-list-initialised (value script of op tinit; after the fix of tuple_leaf) *)
+Theorem C20_tuple_elements_direct_initialised : forall n, tuple_init_m n = tuple_init_spec n.
+Proof. exact tuple_init_agrees. Qed.
+Print Assumptions C20_tuple_elements_direct_initialised.
+
 (** (ii) inplace_function: all histories *)
 Theorem C20_ipf_refines : forall stateless tracked n ops s a, inv s -> rel s a ->
   exists s', run_m stateless tracked n s ops = Good (s', snd (run_s stateless tracked n a ops)) /\ inv s' /\
